@@ -96,6 +96,72 @@ fn main() {
                 }
             }
         }
+        "corner2" => {
+            // finer map of the marginal region found by `corner`
+            let mut rng = util::Rng::new(ctx.seed);
+            for rate in [48000u32, 64000, 72000, 80000, 88200, 96000] {
+                for be in [0.005f64, 0.006, 0.007, 0.008, 0.009, 0.01] {
+                    for noise in [0.02f64, 0.04, 0.0707] {
+                        let mut fails = 0;
+                        let n = 60;
+                        for _ in 0..n {
+                            let h = util::gen_header_any(&mut rng).text().into_bytes();
+                            let mut lg = suites::signal::gen_line(&mut rng, rate);
+                            lg.line.baud_err = be;
+                            lg.line.noise_rel = noise;
+                            let a = synth::transmission(lg.line.clone(), &mut rng, &h, lg.lead_in, lg.pause, 3.0, 7, 7, 2.2);
+                            let mut r = suites::signal::build(suites::signal::Cfg::Samedec, rate);
+                            let evs = rx::run_plain(&mut r, &a.samples);
+                            let m = rx::messages(&evs);
+                            let ok = m.len() == 2 && m[0].1.starts_with(&format!("som_{}", util::hex(&h))) && m[1].1 == "eom";
+                            if !ok { fails += 1; }
+                        }
+                        println!("rate={} baud_err={:+.3} noise={:.4}: {}/{} failed", rate, be, noise, fails, n);
+                    }
+                }
+            }
+        }
+        "corner" => {
+            // failure rate at the corner of C01's domain: +-1 % baud error, 20 dB SNR, long headers
+            let mut rng = util::Rng::new(ctx.seed);
+            for (be, noise) in [(0.01f64, 0.0707f64), (0.01, 0.0), (0.009, 0.0707), (0.008, 0.0707), (-0.01, 0.0707), (0.005, 0.0707), (0.0, 0.0707)] {
+                for rate in [8000u32, 22050, 48000, 96000] {
+                    if let Ok(rr) = std::env::var("CORNER_RATE") { if rr != rate.to_string() { continue; } }
+                    for nloc in [1usize, 31] {
+                        let mut fails = 0;
+                        let n = 40;
+                        for _ in 0..n {
+                            let h = util::gen_header(&mut rng, nloc, 8).text().into_bytes();
+                            let mut lg = suites::signal::gen_line(&mut rng, rate);
+                            lg.line.baud_err = be;
+                            lg.line.noise_rel = noise;
+                            let a = synth::transmission(lg.line.clone(), &mut rng, &h, lg.lead_in, lg.pause, 3.0, 7, 7, 2.2);
+                            let mut r = suites::signal::build(suites::signal::Cfg::Samedec, rate);
+                            let evs = rx::run_plain(&mut r, &a.samples);
+                            let m = rx::messages(&evs);
+                            let ok = m.len() == 2 && m[0].1.starts_with(&format!("som_{}", util::hex(&h))) && m[1].1 == "eom";
+                            if !ok { fails += 1; }
+                        }
+                        println!("baud_err={:+.3} noise={:.4} rate={} nloc={}: {}/{} failed", be, noise, rate, nloc, fails, n);
+                    }
+                }
+            }
+        }
+        "dbgstate" => {
+            let r = rx::default_rx(22050);
+            let s = format!("{:?}", r);
+            // abbreviate long float arrays
+            let mut o = String::new();
+            let mut depth_run = 0;
+            for tok in s.split(", ") {
+                if tok.parse::<f32>().is_ok() {
+                    depth_run += 1;
+                    if depth_run < 3 { o.push_str(tok); o.push_str(", "); }
+                    else if depth_run == 3 { o.push_str("..., "); }
+                } else { depth_run = 0; o.push_str(tok); o.push_str(", "); }
+            }
+            println!("{}", o);
+        }
         "sigtest" => {
             // smoke test: one clean transmission per standard rate
             for rate in [8000u32, 11025, 16000, 22050, 32000, 44100, 48000, 96000] {
@@ -131,6 +197,10 @@ fn main() {
         "sigc01" => suites::signal::run_c01(&ctx),
         "signear" => suites::signal::run_near(&ctx),
         "sigmask" => suites::signal::run_mask(&ctx),
+        "sigchunk" => suites::signal::run_chunk(&ctx),
+        "sigflush" => suites::signal::run_flush(&ctx),
+        "siglong" => suites::signal::run_long(&ctx),
+        "sigreset" => suites::signal::run_reset(&ctx),
         "expand" => {
             // stdin: requests whose hashes disagreed; output: the individual requests they stand for
             use std::io::BufRead;
